@@ -50,7 +50,7 @@ def _mask(b):
 
 @st.composite
 def _case(draw):
-    mode = draw(st.sampled_from(["burst", "burst", "burst", "gated", "seam", "lazyinit", "lazyinit", "lazyinit"]))
+    mode = draw(st.sampled_from(["burst", "burst", "burst", "gated", "gated", "seam", "lazyinit", "lazyinit", "lazyinit"]))
     site = draw(sites.site(full=True, depth=2, max_items=4))
     if mode == "burst":
         n = draw(st.integers(2, 32))
@@ -67,6 +67,7 @@ def _case(draw):
                 "inner": [draw(st.sampled_from([0, 0, 2, 4, 1, 3])), draw(st.sampled_from(FORMS))]}
     if mode == "gated":
         return {"mode": "gated", "site": site, "target": draw(st.integers(0, 30)), "writer": draw(st.sampled_from(FORMS)),
+                "stale": draw(st.booleans()),
                 "reader": draw(st.sampled_from(FORMS))}
     return {"mode": "seam", "site": site, "servertype": draw(st.sampled_from(["ThreadingTCPServer", "ForkingTCPServer"])),
             "reqs": [[draw(st.integers(0, 30)), draw(st.sampled_from(FORMS + ["head", "gbang", "waphdr"]))] for _ in range(draw(st.integers(3, 10)))]}
@@ -298,7 +299,22 @@ def _check_gated(case, ctx):
         rreq, rtls = _request(o, case["reader"])
         want_r = _mask(drive.serve(cfg0, rreq, tls=rtls, realfd=True).response)
         want_w = _mask(drive.serve(cfg0, wreq, tls=wtls, realfd=True).response)
+        if case.get("stale"):
+            # an EXPIRED cache entry exists and the directory has changed since: the writer will regenerate; a reader that
+            # arrives while the writer is walking the directory must not be given the expired entry
+            drive.serve(cfg, wreq, tls=wtls, realfd=True)
+            ddir = os.path.join(os.fsencode(root), world.b(o["sel"]).lstrip(b"/"))
+            with open(os.path.join(ddir, b"zz-added-later.txt"), "wb") as f:
+                f.write(b"added after the listing was cached\n")
+            for dp, dn, fn in os.walk(os.fsencode(root)):
+                for n in fn:
+                    if n.startswith(b".cache.pygopherd.dir"):
+                        st_ = os.stat(os.path.join(dp, n))
+                        os.utime(os.path.join(dp, n), (st_.st_atime - 1000, st_.st_mtime - 1000))
+            want_r = _mask(drive.serve(cfg0, rreq, tls=rtls, realfd=True).response)
+            want_w = _mask(drive.serve(cfg0, wreq, tls=wtls, realfd=True).response)
         orig_open = hbase.VFS_Real.open
+        orig_listdir = hbase.VFS_Real.listdir
         reader_replies = []
         in_gate = threading.local()
 
@@ -339,13 +355,23 @@ def _check_gated(case, ctx):
                 run_reader()  # the file has just been truncated
                 return Gate(fp)
             return fp
+        walked = []
+
+        def gated_listdir(self, selector):
+            if case.get("stale") and not walked and not getattr(in_gate, "busy", False) and selector.rstrip("/") == o["sel"].rstrip("/"):
+                walked.append(1)
+                run_reader()  # the writer has found the entry expired and is about to walk the directory
+            return orig_listdir(self, selector)
         hbase.VFS_Real.open = gated
+        hbase.VFS_Real.listdir = gated_listdir
         try:
             rw = drive.serve(cfg, wreq, tls=wtls, realfd=True)
             got_w = _mask(rw.response)
         finally:
             hbase.VFS_Real.open = orig_open
-        ctx.label("gated", "gated-reader-runs:%s" % ("0" if not reader_replies else "1-2" if len(reader_replies) <= 2 else "3+"))
+            hbase.VFS_Real.listdir = orig_listdir
+        ctx.label("gated", "gated-reader-runs:%s" % ("0" if not reader_replies else "1-2" if len(reader_replies) <= 2 else "3+"),
+                  "gated-stale:%s" % bool(case.get("stale")))
         ctx.count("gated_reader_runs", len(reader_replies))
         if reader_replies:
             ctx.nontriv()
@@ -353,7 +379,7 @@ def _check_gated(case, ctx):
         fails = []
         for i, rr in enumerate(reader_replies):
             if rr != want_r:
-                fails.append(Fail("gated-reader-differs:%s" % ("truncated" if i == 0 else "partial"),
+                fails.append(Fail("gated-reader-differs:%s" % (("expired-entry" if case.get("stale") and walked and i == 0 else "truncated" if i == (1 if case.get("stale") and walked else 0) else "partial")),
                                   "a %s reader of %r running while a %s writer has %s the cache file gets a different reply than alone" % (
                                       case["reader"], o["sel"], case["writer"], "just truncated" if i == 0 else "partly written"),
                                   {"reader": world.u(rr[:400]), "alone": world.u(want_r[:400])}))
